@@ -19,6 +19,7 @@ EXPLANATION = (
     "failure re-raises; (d) no other code in signac opens-for-writing or copies onto a path that is recognisably a job "
     "document, project document or the cache file."
     ' The rename that publishes the cache is never executed inside a `with` that still holds a file object writing the temporary (rename after close).'
+    ' (g) a rename onto the cache / document file installs only a temporary that the same function has written (C10-g).'
 )
 UNDECIDED = "Torn-prefix behaviour of the file system, durability without fsync and reader scheduling are not decided (no execution)."
 ASSUMPTIONS = ["os.replace is atomic on the platform; the synced_collections source found on sys.path is the one imported at run time."]
